@@ -175,4 +175,72 @@ theorem paraPost_ok (sty : Styles) (q : Str) (a : Attrs) (markup : Str) (st : MS
       · exact ⟨_, _, rfl, rfl, key _ _⟩
       · exact ⟨_, _, rfl, rfl, keyi⟩
 
+/-- a top-level paragraph or heading with inline content -/
+inductive MPara : Node → Prop
+  | mk (q a kids) : (q = tP ∨ q = tH) → ParaOK a → MInL kids → MPara (.elem q a kids)
+
+/-- visible text of such a paragraph -/
+def pvis : Node → Str
+  | .elem _ _ kids => mvisL kids
+  | .text _ => []
+
+def pvisL (l : List Node) : Str := l.flatMap pvis
+
+theorem flatten_sublist_intercalate (sep : Str) (l : List Str) : l.flatten.Sublist (List.intercalate sep l) := by
+  induction l with
+  | nil => simp
+  | cons t r ih =>
+    cases r with
+    | nil => simp [List.intercalate]
+    | cons u r' =>
+      rw [List.intercalate_cons_cons, List.flatten_cons, List.append_assoc]
+      exact List.Sublist.append (List.Sublist.refl t) (ih.trans (List.sublist_append_right _ _))
+
+theorem topStr_paras (sty : Styles) (st : MSt) (l : List Node) (h : ∀ n ∈ l, MPara n) :
+    ∃ ts st', topStr sty st l = .ok (ts, st') ∧ st'.foot = st.foot ∧ (nonWs (pvisL l)).Sublist (nonWs ts.flatten) := by
+  induction l generalizing st with
+  | nil => exact ⟨[], st, rfl, rfl, by simp [pvisL, nonWs]⟩
+  | cons n ns ih =>
+    obtain ⟨q, a, kids, hq, hp, hk⟩ := h n (by simp)
+    obtain ⟨t, ht, hs⟩ := kidsStr_inline sty st kids hk
+    obtain ⟨r, st1, hr, hf1, hs1⟩ := paraPost_ok sty q a (inlineMarkup sty a t) st hp
+    obtain ⟨ts, st2, h2, hf2, hs2⟩ := ih st1 (fun m hm => h m (by simp [hm]))
+    have hsub : (nonWs (mvisL kids)).Sublist (nonWs r) := (hs.trans (nonWs_inlineMarkup sty a t)).trans hs1
+    have hne : q ≠ tList ∧ q ≠ tSection ∧ q ≠ tTable := by
+      rcases hq with rfl | rfl <;> decide
+    have hsel : ((q = tPage ∨ q = tP) ∨ q = tH) := by rcases hq with h | h <;> simp [h]
+    refine ⟨if r.isEmpty then ts else r :: ts, st2, ?_, by rw [hf2, hf1], ?_⟩
+    · simp only [topStr, hne.1, hne.2.1, hne.2.2, if_false, ht, hr]
+      simp only [Bool.or_eq_true, decide_eq_true_eq, hsel, if_true, h2]
+    · simp only [pvisL, List.flatMap_cons, pvis, nonWs_append]
+      split
+      · rename_i he
+        have : r = [] := by simpa using he
+        subst this
+        have : nonWs (mvisL kids) = [] := by simpa [nonWs] using hsub
+        rw [this]; simpa [pvisL] using hs2
+      · rw [List.flatten_cons, nonWs_append]
+        exact List.Sublist.append hsub (by simpa [pvisL] using hs2)
+
+/-- **C18 (MoinMoin: total and complete) — partial**: for a text document whose body consists of paragraphs and headings
+    with inline content (text, spans, links, bookmark references and the other `inline_markup` elements, text:s / tab /
+    line-break, bookmarks and the other ignored empty elements, images; headings with a decimal outline level), and
+    whose styles the model can read (`loadStyles` succeeds), `toString` returns a string and the visible text is a
+    subsequence of it, white space dropped on both sides.  Outside: lists, tables, sections, frames, notes (the known
+    findings KF-C18-5 … 9 live there; list and table conversion is tied by the correspondence only). -/
+theorem moin_total_complete_partial (stylesDoc contentDoc : Node) (sty : Styles) (body : Node) (bs : List Node)
+    (textEl : Node) (more paras : List Node) (h1 : loadStyles stylesDoc contentDoc = .ok sty)
+    (h2 : byTag contentDoc tBody = body :: bs) (h3 : kidsOf body = textEl :: more) (h4 : kidsOf textEl = paras)
+    (h5 : ∀ n ∈ paras, MPara n) :
+    ∃ out, toString stylesDoc contentDoc = .ok out ∧ (nonWs (pvisL paras)).Sublist (nonWs out) := by
+  obtain ⟨ts, st', ht, hf, hs⟩ := topStr_paras sty {} paras h5
+  have hfoot : st'.foot = [] := by rw [hf]
+  refine ⟨List.intercalate [10] (ts ++ [[]]), ?_, ?_⟩
+  · unfold toString
+    simp [h1, h2, h3, h4, ht, hfoot, bind, Except.bind, pure, Except.pure]
+  · have := flatten_sublist_intercalate [10] (ts ++ [[]])
+    have h' : (ts ++ [[]]).flatten = ts.flatten := by simp
+    rw [h'] at this
+    exact hs.trans (sublist_nonWs this)
+
 end OdfModel.Moin
